@@ -138,16 +138,23 @@ func UserDone(bci any, stub shim.ChaincodeStubInterface, symbol string, swapID s
 	if bytes.Equal(swap.GetCreator(), swap.GetOwner()) {
 		return shim.Error(ErrIncorrectMultiSwap)
 	}
+	// This handler runs on the peer's stub, where a transaction does not read its own writes:
+	// the credits go through a write cache, so that an asset group listed twice is credited twice
+	// (as it was debited by multiSwapBegin) and not once.
+	credits := cachestub.NewBatchCacheStub(stub)
 	if swap.GetToken() == swap.GetFrom() {
-		if err = ledger.AllowedIndustrialBalanceAdd(stub, types.AddrFromBytes(swap.GetOwner()), swap.GetAssets(), "multi-swap done"); err != nil {
+		if err = ledger.AllowedIndustrialBalanceAdd(credits, types.AddrFromBytes(swap.GetOwner()), swap.GetAssets(), "multi-swap done"); err != nil {
 			return shim.Error(err.Error())
 		}
 	} else {
 		for _, asset := range swap.GetAssets() {
-			if err = ledger.TokenBalanceAddWithTicker(stub, symbol, types.AddrFromBytes(swap.GetOwner()), new(big.Int).SetBytes(asset.GetAmount()), asset.GetGroup(), "reverse multi-swap done"); err != nil {
+			if err = ledger.TokenBalanceAddWithTicker(credits, symbol, types.AddrFromBytes(swap.GetOwner()), new(big.Int).SetBytes(asset.GetAmount()), asset.GetGroup(), "reverse multi-swap done"); err != nil {
 				return shim.Error(err.Error())
 			}
 		}
+	}
+	if err = credits.Commit(); err != nil {
+		return shim.Error(err.Error())
 	}
 
 	if err = Delete(stub, swapID); err != nil {
